@@ -253,6 +253,16 @@ func (c *Conn) serve() {
 }
 
 func (c *Conn) pushFramesLoop() {
+	// this goroutine is not covered by serve's recover: a failf here
+	// (e.g. a pixel format we cannot encode) must end the connection,
+	// not the process
+	defer func() {
+		if e := recover(); e != nil {
+			log.Debugf("Client disconnect: %v", e)
+			c.c.Close()
+		}
+	}()
+
 	for {
 		select {
 		case ur, ok := <-c.fbupc:
